@@ -7,9 +7,11 @@ claimed["C10"] = (
     "for all 2^(8L) inputs rather than sampled; (2) binary headers whose attachment count is any 1..3 symbolic digits or one of 20 boundary counts up to 10^20 (both sides of 2^31, 2^32, 2^47/24, 2^63, 2^64): no "
     "panic, and an accepted header leaves the decoder expecting a positive, limit-respecting number of attachments (never wedged on a negative count); (3) placeholder arithmetic with the number ANY int "
     "(typed Binary path, real reconstructBinaryValue) and ANY float64 incl. NaN/Inf/2^63 (untyped map[string]any path, real reconstructMap with both key orders, through the executor's reflect model): never a "
-    "panic; a placeholder is resolved only if it designates an attachment and then to exactly that attachment, otherwise an error. JSON is an opaque stub (may fail, may return 0..2 strings / any number).",
-    "Outside the claim: frames longer than the bound, panics inside encoding/json itself, the struct / slice branches of the reflect walk on the decode side beyond the shapes of C09_walk_rt, the routing of decode "
-    "errors to error handlers / connection close (C05's routing harness covers 'invalid packets close the connection').",
+    "panic; a placeholder is resolved only if it designates an attachment and then to exactly that attachment, otherwise an error. JSON is an opaque stub (may fail, may return 0..2 strings / any number). "
+    "(4) error routing on server and client (real onEIOPacket / onParserFinish / onPacket / onEvent / onFatalError / Manager.onClose) with a decoder whose behaviour is symbolic - refuses the frame, or completes a packet whose decode "
+    "closure fails / returns one value too few / one too many / succeeds - against five handler signature families: no panic on any goroutine; refused frame => socket error handlers + connection closed (client: closed once with the "
+    "parse-error reason); undecodable arguments => error handlers, handler not called, connection stays; a second connection of the same server keeps receiving events; no mutex left held.",
+    "Outside the claim: frames longer than the bound, panics inside encoding/json itself, the struct / slice branches of the reflect walk on the decode side beyond the shapes of C09_walk_rt, hangs (termination is not checked beyond the unwinding bounds).",
     "5 (C10)")
 
 claimed["C11"] = (
@@ -202,7 +204,7 @@ claimed["C01"] = (
     "in another namespace), 0..2 binary attachments of 0..2 SYMBOLIC bytes each (so the 0x1e record separator, 'b', digits are points of the solver's domain), framing mode, 1 (quick) / 1..2 (thorough) events. "
     "Asserts: the event reaches exactly the peer's handler(s) registered for that name in that namespace, exactly once, with byte-identical attachments in their places; an event without handler reaches nobody; "
     "no half-assembled packet stays in the decoder; the connection is not closed. C01_upgrade_server: two two-frame events (one queued on the real polling transport, or both concurrent) around the real "
-    "Engine.IO upgradeTo under all interleavings: every frame reaches the new transport exactly once and the frames of each event stay adjacent and in order. The Socket.IO codec is a frame-preserving stand-in here: header/JSON are C09's subject, Engine.IO framing is C11's, the queue C02/C19's.",
+    "Engine.IO upgradeTo under all interleavings: every frame reaches the new transport exactly once and the frames of each event stay adjacent and in order. C01_pipeline_recovery: the server -> client pipeline with connection state recovery ON (emit through the real session-aware adapter, client holding a session id): each event once, attachments byte-identical, also when the same values are emitted twice. The Socket.IO codec is a frame-preserving stand-in here: header/JSON are C09's subject, Engine.IO framing is C11's, the queue C02/C19's.",
     "Outside the claim (structural for this family): argument trees through encoding/json and the reflect walk, sizes near 32 KiB / 64 KiB / MaxBufferSize and the transports' read limits (C13 decides the limit kernels it lists), "
-    "real network transports, the client side of the upgrade (C07 kernel), connection state recovery's emit branch, concurrent emitters (C02), 2..3 clients.",
+    "real network transports, the client side of the upgrade (C07 kernel), concurrent emitters (C02), 2..3 clients.",
     "5 (C01)")
